@@ -27,6 +27,9 @@ def run(ctx):
     progs = [T.gen_program(rnd, i, cls='A', feats=('send', 'tempo', 'spawn', 'raise', 'cond', 'quant', 'stop', 'yr', 'func')) for i in range(n)]
     nrt_progs = progs + [T.gen_program(rnd, n + i, cls='A', nrt_only=True) for i in range(n // 4)]
     check(ctx, nrt_progs, progs, MINE, sig, 'C05')
+    # plain threads acting while clock threads are inside routine bodies (a routine played from a plain thread lives
+    # on SystemClock and starts at the physical time of the call)
+    T.user_programs(ctx, 1500 if thorough else 150, 30_000, sig, MINE)
     ctx.cov['rule'] = ('%d seeded random routine programs (1-6 routines, nested/cross-clock play, yields in {0,1/8..2} beats, tempo '
                        'changes in {1/2,1,2,4}, raising bodies, sends) each executed under NrtMain and under RtMain+cosched with '
                        'random timer lateness (0..3 s); +%d NRT-only programs using AppClock; non-trivial = contains a tempo '
@@ -36,7 +39,7 @@ def run(ctx):
                         'RT runs use virtual time at lock granularity (cosched)']
 
 
-def check(ctx, nrt_progs, rt_progs, mine, sigf, pid):
+def check(ctx, nrt_progs, rt_progs, mine, sigf, pid, lenient=False):
     rt_in = [dict(p, strategy=dict(kind='random' if p['id'] % 4 else 'pct', seed=ctx.seed * 7919 + p['id'])) for p in rt_progs]
     hist = {}
     for p in nrt_progs + rt_progs:
@@ -50,6 +53,8 @@ def check(ctx, nrt_progs, rt_progs, mine, sigf, pid):
     ctx.cov['evaluations'] += len(tn) + len(tr)
     for t in tr:
         t['id'] += 10_000_000
+    for t in tn + tr:
+        t['lenient'] = lenient       # C07: differences in what routines read as their time are C05's, the stamps are judged on
     v = T.validate(ctx, tn + tr)
     other = {}
     for t in tn + tr:
@@ -82,7 +87,7 @@ def design(ctx):
 def replay(ctx, rp):
     r = rp['replay']
     p = dict(r['program'], id=0)
-    tr = T.run_mode(ctx, [dict(p, strategy=dict(kind='random', seed=ctx.seed))], r['mode'], nproc=1)
+    tr = T.run_mode(ctx, [dict(p, strategy=p.get('strategy') or dict(kind='random', seed=ctx.seed))], r['mode'], nproc=1)
     v = T.validate(ctx, tr)
     ctx.cov['evaluations'] = 1
     ctx.sample(dict(verdict=v[tr[0]['id']]))
